@@ -146,6 +146,10 @@ pub struct FaultState {
     pub record: std::sync::atomic::AtomicBool,
     /// which io::ErrorKind the injected failure carries (EK_*)
     pub err_kind: std::sync::atomic::AtomicU8,
+    /// 0 = none; otherwise: the I/O call that comes this many calls AFTER `fail_at` panics (once). With a sticky
+    /// failure every call since `fail_at` has failed: code that keeps issuing I/O calls regardless would never
+    /// end (decided by the call counter, not by time)
+    pub hard_limit: AtomicUsize,
 }
 pub const EK_OTHER: u8 = 0;
 pub const EK_EOF: u8 = 1;
@@ -174,6 +178,7 @@ impl FaultState {
             kinds: Mutex::new(Vec::new()),
             record: std::sync::atomic::AtomicBool::new(record),
             err_kind: std::sync::atomic::AtomicU8::new(EK_OTHER),
+            hard_limit: AtomicUsize::new(0),
         })
     }
     fn op(&self, kind: u8) -> io::Result<()> {
@@ -183,6 +188,10 @@ impl FaultState {
             return Ok(());
         }
         let i = self.ops.fetch_add(1, Ordering::Relaxed);
+        let hl = self.hard_limit.load(Ordering::Relaxed);
+        if hl != 0 && i == self.fail_at.load(Ordering::Relaxed).saturating_add(hl) {
+            panic!("ZV-IO-HARD-LIMIT: the code under test issued {i} I/O calls and keeps going although every call has been failing since call {}: unbounded loop", self.fail_at.load(Ordering::Relaxed));
+        }
         if self.record.load(Ordering::Relaxed) {
             self.kinds.lock().unwrap().push(kind);
         }
